@@ -117,7 +117,7 @@ class FastHierarchyAnalyzer(HierarchyAnalyzerBase):
                 i_choice = i_sel_choice_nodes[choice_node]
                 i_opt = opt_idx_try[i_choice]
                 if i_opt == X_INACTIVE_VALUE:
-                    raise RuntimeError(f'Unexpected inactive choice: {i_choice} @ {choice_opt_idx}')
+                    raise RuntimeError(f'Unexpected inactive choice: {i_choice} @ {opt_idx_try}')
                 taken_sel_opt[i_choice] = i_opt
 
                 # Check if the graph has already been created
